@@ -710,6 +710,16 @@ example : (textRuns [Token.start (str "div") [], .data (str "a b"), .start (str 
     = [(true, str "a b"), (true, str "x"), (false, str "  y  "), (true, str "&amp;"),
        (false, str "if (a < b) { s = 1; }")] := by decide +kernel
 
+/-- `mini_output_text_runs` on the multi-root document -/
+example : ∃ out body, format (mkCfg .mini .dflt false) (strictToksM (some (str "doctype html")) multiKids) = .ok out ∧
+    lexStrict out = some (dtToks (some (str "doctype html")) ++ glueDt (str "\n") body) ∧
+    (∀ p ∈ textRuns body, miniCare p.1 = true → GoodText p.2) :=
+  let ⟨out, body, h1, h2, _, h4⟩ := mini_output_text_runs (mkCfg .mini .dflt false) rfl (by decide) _
+    (noWrapperStart_toksM _ _ multiKids_strict multiKids_noWrapper) _
+    (plain_feed_strictToksM (some (str "doctype html")) (by decide) _ multiKids_strict multiKids_multi) _ _ _ _ rfl
+    (by decide) (strict_wrapperElem _ multiKids_strict) (by decide)
+  ⟨out, body, h1, h2, h4⟩
+
 /-- the texts in question: pass 1, and pass 2 = pass 3 (what the model's formatter and lexer compute) -/
 example : okIs (format (mkCfg .pretty .dflt false) (strictToks (some (str "DOCTYPE html")) stableTree))
     ("<!DOCTYPE html>\n\n<div >a b\n  <p >x\n    <br />\n  </p>\n  <pre ><span >  y  </span></pre>&amp;\n" ++
